@@ -53,7 +53,7 @@ func c08CheckBatch(run *vlib.Run, cases []schemaCase) (map[int][]vlib.Violation,
 	var reqs []e2.Request
 	var refs []ref
 	add := func(r ref, key string, docJSON string) {
-		reqs = append(reqs, e2.Request{ID: len(reqs), Key: key, Op: r.op, Doc: docJSON})
+		reqs = append(reqs, e2.Request{ID: len(reqs), Key: key, Op: strings.TrimSuffix(r.op, "-defaulted"), Doc: docJSON})
 		refs = append(refs, r)
 	}
 	for i, c := range cases {
@@ -80,6 +80,14 @@ func c08CheckBatch(run *vlib.Run, cases []schemaCase) (map[int][]vlib.Violation,
 				f := faults[fi]
 				// harness cross-check: the reference validator must reject the fault
 				if err := p.validators[i].Validate(d.Def, f.JSON); err == nil {
+					if f.Class == "required_removed" {
+						// the schema language fills the property in (a CUE field
+						// with a default): the document without it is VALID for
+						// the source schema, and must not be rejected
+						count(run, "valid_without_defaulted_property", 1)
+						add(ref{i, smodel.Doc{Def: d.Def, JSON: f.JSON, Features: d.Features}, nil, "roundtrip-defaulted"}, key, f.JSON)
+						continue
+					}
 					count(run, "generator_oracle_mismatch:fault", 1)
 					note(run, "reference validator accepts a %s fault at %s (%s)", f.Class, f.Path, c.Format)
 					continue
@@ -113,6 +121,16 @@ func c08CheckBatch(run *vlib.Run, cases []schemaCase) (map[int][]vlib.Violation,
 		if rf.fault == nil {
 			// valid document: no false positives
 			switch rf.op {
+			case "roundtrip-defaulted":
+				if run != nil {
+					run.Eval(vlib.HashBytes([]byte(c.source()), []byte(rf.doc.JSON), []byte("defaulted")), "valid_without_defaulted_property")
+				}
+				if r.HasStrict && r.StrictErr != "" {
+					bad("strict-false-positive:"+f+":defaulted-property-left-out:"+errClass(r.StrictErr)+nestedTag(c), "the strict decoder rejects %s, which the source schema accepts (the property left out has a default): %s", rf.doc.JSON, r.StrictErr)
+				}
+				if r.StdErr != "" {
+					bad("std-false-positive:"+f+":defaulted-property-left-out"+nestedTag(c), "the standard decoder rejects %s, which the source schema accepts: %s", rf.doc.JSON, r.StdErr)
+				}
 			case "roundtrip":
 				if !r.HasStrict {
 					bad("no-strict-decoder:"+f, "no UnmarshalJSONStrict generated")
